@@ -1,4 +1,5 @@
 import EgglogVerif.Lemmas.Table
+import EgglogVerif.Model.Index
 /-
 C16 — The table store behaves like a keyed map.
 
@@ -166,5 +167,267 @@ example :
     let m : Row → Row → Option Row := fun cur new => if cur = new then none else some new
     let t := run m 1 [.merge [] [[1, 10], [2, 20], [1, 11]], .merge [[2]] [[3, 30]], .rehash]
     t.getRow [1] = some [1, 11] ∧ t.getRow [2] = none ∧ t.scan = [[1, 11], [3, 30]] := by decide
+
+/-! ### cached column indexes -/
+
+/-- what the index recorded for a row id still describes the row at that id, if it is still live -/
+def Agree (col : Nat) : List (Option Nat) → List (Option Row) → Prop
+  | [], _ => True
+  | _ :: _, [] => False
+  | kv :: ks, r :: rs => (∀ row, r = some row → kv = some (row.getD col 0)) ∧ Agree col ks rs
+
+theorem agree_set_none (col : Nat) : ∀ (vals : List (Option Nat)) (rows : List (Option Row)) (i : Nat),
+    Agree col vals rows → Agree col vals (rows.set i none) := by
+  intro vals
+  induction vals with
+  | nil => intro rows i _; trivial
+  | cons kv ks ih =>
+    intro rows i h
+    cases rows with
+    | nil => exact h
+    | cons r rs =>
+      cases i with
+      | zero =>
+        show Agree col (kv :: ks) (none :: rs)
+        exact ⟨fun row hr => absurd hr (by simp), h.2⟩
+      | succ j =>
+        show Agree col (kv :: ks) (r :: rs.set j none)
+        exact ⟨h.1, ih rs j h.2⟩
+
+theorem agree_append (col : Nat) : ∀ (vals : List (Option Nat)) (rows extra : List (Option Row)),
+    Agree col vals rows → Agree col vals (rows ++ extra) := by
+  intro vals
+  induction vals with
+  | nil => intro rows extra _; trivial
+  | cons kv ks ih =>
+    intro rows extra h
+    cases rows with
+    | nil => exact absurd h (by simp [Agree])
+    | cons r rs => exact ⟨h.1, ih rs extra h.2⟩
+
+theorem agree_keyVals (col : Nat) : ∀ (rows : List (Option Row)), Agree col (keyVals col rows) rows := by
+  intro rows
+  induction rows with
+  | nil => trivial
+  | cons r rs ih =>
+    refine ⟨fun row hr => ?_, ih⟩
+    subst hr; rfl
+
+theorem agree_extend (col : Nat) : ∀ (vals : List (Option Nat)) (rows : List (Option Row)), Agree col vals rows →
+    Agree col (vals ++ keyVals col (rows.drop vals.length)) rows := by
+  intro vals
+  induction vals with
+  | nil => intro rows _; simpa using agree_keyVals col rows
+  | cons kv ks ih =>
+    intro rows h
+    cases rows with
+    | nil => exact absurd h (by simp [Agree])
+    | cons r rs => exact ⟨h.1, by simpa using ih rs h.2⟩
+
+theorem agree_length (col : Nat) : ∀ (vals : List (Option Nat)) (rows : List (Option Row)), Agree col vals rows →
+    vals.length ≤ rows.length := by
+  intro vals
+  induction vals with
+  | nil => intro rows _; simp
+  | cons kv ks ih =>
+    intro rows h
+    cases rows with
+    | nil => exact absurd h (by simp [Agree])
+    | cons r rs => simpa using ih rs h.2
+
+/-- reading through an index that covers the whole table and agrees with it = filtering the scan -/
+theorem zipLookup_spec (col v : Nat) : ∀ (vals : List (Option Nat)) (rows : List (Option Row)),
+    Agree col vals rows → vals.length = rows.length →
+    zipLookup v vals rows = (live rows).filter (fun r => r.getD col 0 == v) := by
+  intro vals
+  induction vals with
+  | nil =>
+    intro rows _ hl
+    have : rows = [] := List.eq_nil_of_length_eq_zero (by simpa using hl.symm)
+    subst this; rfl
+  | cons kv ks ih =>
+    intro rows h hl
+    cases rows with
+    | nil => simp at hl
+    | cons r rs =>
+      have hl' : ks.length = rs.length := by simpa using hl
+      cases r with
+      | none =>
+        simp only [zipLookup, live, List.filterMap_cons]
+        exact ih rs h.2 hl'
+      | some row =>
+        have hk := h.1 row rfl
+        simp only [zipLookup, live, List.filterMap_cons, id, List.filter_cons]
+        have ih' := ih rs h.2 hl'
+        unfold live at ih'
+        by_cases hv : row.getD col 0 = v
+        · have hkv : kv = some v := by rw [hk, hv]
+          rw [if_pos hkv, if_pos (beq_iff_eq.mpr hv), ih']
+        · have hkv : kv ≠ some v := by rw [hk]; intro e; exact hv (Option.some.inj e)
+          rw [if_neg hkv, if_neg (fun e => hv (beq_iff_eq.mp e)), ih']
+
+/-- the invariant tying a cached index to its table: never ahead of the table's generation, and
+within the same generation a prefix of the rows that agrees with what is still live there -/
+structure IxInv (ix : Index) (t : Table) : Prop where
+  le : ix.major ≤ t.gen
+  agree : ix.major = t.gen → Agree ix.col ix.vals t.rows
+
+theorem deleteOne_rows (t : Table) (k : Key) : (t.deleteOne k).gen = t.gen ∧
+    ∀ col vals, Agree col vals t.rows → Agree col vals (t.deleteOne k).rows := by
+  unfold Table.deleteOne
+  cases t.hash k with
+  | none => exact ⟨rfl, fun _ _ h => h⟩
+  | some i => exact ⟨rfl, fun col vals h => agree_set_none col vals t.rows i h⟩
+
+theorem insertOne_rows (m : Row → Row → Option Row) (t : Table) (r : Row) : (t.insertOne m r).gen = t.gen ∧
+    ∀ col vals, Agree col vals t.rows → Agree col vals (t.insertOne m r).rows := by
+  unfold Table.insertOne
+  simp only
+  cases t.hash (keyOf t.nKeys r) with
+  | none => exact ⟨rfl, fun col vals h => agree_append col vals _ _ h⟩
+  | some i =>
+    simp only
+    cases t.rowAt i with
+    | none => exact ⟨rfl, fun _ _ h => h⟩
+    | some cur =>
+      simp only
+      cases m cur r with
+      | none => exact ⟨rfl, fun _ _ h => h⟩
+      | some merged => exact ⟨rfl, fun col vals h => agree_append col vals _ _ (agree_set_none col vals _ i h)⟩
+
+theorem IxInv.deleteOne {ix : Index} {t : Table} (i : IxInv ix t) (k : Key) : IxInv ix (t.deleteOne k) := by
+  obtain ⟨g, a⟩ := deleteOne_rows t k
+  exact ⟨g ▸ i.le, fun h => a _ _ (i.agree (g ▸ h))⟩
+
+theorem IxInv.insertOne {ix : Index} {t : Table} (i : IxInv ix t) (m : Row → Row → Option Row) (r : Row) :
+    IxInv ix (t.insertOne m r) := by
+  obtain ⟨g, a⟩ := insertOne_rows m t r
+  exact ⟨g ▸ i.le, fun h => a _ _ (i.agree (g ▸ h))⟩
+
+theorem rehash_gen (t : Table) : t.rehash.gen = t.gen + 1 := by
+  unfold Table.rehash
+  split
+  rfl
+
+theorem IxInv.bump {ix : Index} {t t' : Table} (i : IxInv ix t) (hg : t'.gen = t.gen + 1) : IxInv ix t' :=
+  ⟨by rw [hg]; exact Nat.le_succ_of_le i.le, fun h => by have := i.le; omega⟩
+
+/-- **every table operation keeps every cached index valid or makes it detectably out of date** -/
+theorem IxInv.step {ix : Index} {t : Table} (i : IxInv ix t) (m : Row → Row → Option Row) (op : Op) :
+    IxInv ix (step m t op) := by
+  cases op with
+  | merge dels ins =>
+    show IxInv ix (((t.doDelete dels).doInsert m ins).maybeRehash)
+    have h1 : ∀ (ks : List Key) (t : Table), IxInv ix t → IxInv ix (t.doDelete ks) := by
+      intro ks
+      induction ks with
+      | nil => intro t i; exact i
+      | cons k ks ih => intro t i; exact ih _ (i.deleteOne k)
+    have h2 : ∀ (rs : List Row) (t : Table), IxInv ix t → IxInv ix (t.doInsert m rs) := by
+      intro rs
+      induction rs with
+      | nil => intro t i; exact i
+      | cons r rs ih => intro t i; exact ih _ (i.insertOne m r)
+    have i2 := h2 ins _ (h1 dels t i)
+    unfold Table.maybeRehash
+    split
+    · exact i2
+    · exact i2.bump (rehash_gen _)
+  | rehash => exact IxInv.bump (t' := t.rehash) i (rehash_gen t)
+  | clear =>
+    show IxInv ix t.clear
+    unfold Table.clear
+    split
+    · exact i
+    · exact i.bump rfl
+
+/-- a refresh brings the index up to date with the whole table -/
+theorem IxInv.refresh {ix : Index} {t : Table} (i : IxInv ix t) :
+    IxInv (ix.refresh t) t ∧ (ix.refresh t).major = t.gen ∧ (ix.refresh t).vals.length = t.rows.length ∧
+      (ix.refresh t).col = ix.col := by
+  unfold Index.refresh
+  split
+  · rename_i he
+    have a := i.agree he
+    have hl := agree_length _ _ _ a
+    refine ⟨⟨Nat.le_of_eq he, fun _ => agree_extend _ _ _ a⟩, he, ?_, rfl⟩
+    simp only [List.length_append, keyVals, List.length_map, List.length_drop]; omega
+  · refine ⟨⟨Nat.le_refl _, fun _ => agree_keyVals _ _⟩, rfl, ?_, rfl⟩
+    simp only [keyVals, List.length_map]
+
+/-- histories: table operations interleaved with refreshes of one cached index at arbitrary moments -/
+inductive IOp where
+  | tbl (op : Op)
+  | refresh
+
+def istep (m : Row → Row → Option Row) (s : Table × Index) : IOp → Table × Index
+  | .tbl op => (step m s.1 op, s.2)
+  | .refresh => (s.1, s.2.refresh s.1)
+
+def irun (m : Row → Row → Option Row) (n col : Nat) (ops : List IOp) : Table × Index :=
+  ops.foldl (istep m) (Table.empty n, Index.fresh col)
+
+theorem irun_inv (m : Row → Row → Option Row) (n col : Nat) (ops : List IOp) :
+    IxInv (irun m n col ops).2 (irun m n col ops).1 ∧ (irun m n col ops).2.col = col := by
+  unfold irun
+  have key : ∀ (ops : List IOp) (s : Table × Index), IxInv s.2 s.1 → s.2.col = col →
+      IxInv (ops.foldl (istep m) s).2 (ops.foldl (istep m) s).1 ∧ (ops.foldl (istep m) s).2.col = col := by
+    intro ops
+    induction ops with
+    | nil => intro s i c; exact ⟨i, c⟩
+    | cons op ops ih =>
+      intro s i c
+      cases op with
+      | tbl o => exact ih (istep m s (.tbl o)) (i.step m o) c
+      | refresh => exact ih (istep m s .refresh) i.refresh.1 (i.refresh.2.2.2.trans c)
+  exact key ops _ ⟨Nat.le_refl _, fun _ => trivial⟩ rfl
+
+/-- **Index lookups behave like the keyed map.**  After ANY history of merges, compactions and
+clears with refreshes of the cached index at arbitrary moments (so the index is stale, partially
+stale or from an older generation in between), refreshing and reading through the index returns
+exactly the live rows whose indexed column has the requested value, in scan order — a lookup
+obtained after a merge reflects that merge. -/
+theorem C16_index (m : Row → Row → Option Row) (n col : Nat) (ops : List IOp) (v : Nat) :
+    let s := irun m n col ops
+    (s.2.refresh s.1).lookup s.1 v = s.1.scan.filter (fun r => r.getD col 0 == v) := by
+  intro s
+  obtain ⟨i, c⟩ := irun_inv m n col ops
+  obtain ⟨i', _, hl, hc⟩ := i.refresh
+  unfold Index.lookup Table.scan
+  have := zipLookup_spec (s.2.refresh s.1).col v _ _ (i'.agree (by assumption)) hl
+  rw [hc, c] at this
+  exact this
+
+/-- **A stale index is never wrong about what it returns**: even WITHOUT a refresh, within the same
+generation everything read through the index is a live row with the requested value (it may miss
+rows appended since — which is why the version check forces the refresh). -/
+theorem C16_index_stale_sound (col v : Nat) : ∀ (vals : List (Option Nat)) (rows : List (Option Row)),
+    Agree col vals rows → ∀ r ∈ zipLookup v vals rows, r ∈ live rows ∧ r.getD col 0 = v := by
+  intro vals
+  induction vals with
+  | nil => intro rows _ r hr; simp [zipLookup] at hr
+  | cons kv ks ih =>
+    intro rows h r hr
+    cases rows with
+    | nil => simp [zipLookup] at hr
+    | cons x xs =>
+      cases x with
+      | none =>
+        simp only [zipLookup] at hr
+        obtain ⟨a, b⟩ := ih xs h.2 r hr
+        exact ⟨by simpa [live] using a, b⟩
+      | some row =>
+        simp only [zipLookup] at hr
+        split at hr
+        · rename_i hkv
+          simp only [List.mem_cons] at hr
+          rcases hr with rfl | hr
+          · have := h.1 r rfl
+            rw [hkv] at this
+            exact ⟨by simp [live], (Option.some.inj this).symm⟩
+          · obtain ⟨a, b⟩ := ih xs h.2 r hr
+            exact ⟨by simp only [live, List.filterMap_cons, id, List.mem_cons]; right; simpa [live] using a, b⟩
+        · obtain ⟨a, b⟩ := ih xs h.2 r hr
+          exact ⟨by simp only [live, List.filterMap_cons, id, List.mem_cons]; right; simpa [live] using a, b⟩
 
 end EgglogVerif.Table
